@@ -91,7 +91,7 @@ Qed.
 (* ---------- frontend *)
 Lemma fstep_cnt s o : CntInv s -> CntInv (fstep K s o).
 Proof.
-  intros I. destruct o as [t e|t|t|t|t|l v|k v|k m|d]; cbn [fstep].
+  intros I. destruct o as [t e|t|t|t|t|l v|k v|k m|d|t c]; cbn [fstep].
   - destruct (pend (th s t)); [exact I|]. destruct (tvalid (th s t) && passes_logger s e); [|exact I].
     eapply cnt_fsame; [|exact I]. repeat split. intro u. cbn. unfold upd. destruct (Nat.eqb_spec u t) as [->|]; reflexivity.
   - destruct (memb t (registered s)) eqn:M; [exact I|]. cbn [orb]. destruct (negb (tvalid (th s t))); [exact I|].
@@ -137,6 +137,7 @@ Proof.
   - eapply cnt_fsame; [|exact I]. repeat split.
   - destruct (existsb (N.eqb m) (sfilt (sk s k)) || (m =? 0)); [exact I|]. eapply cnt_fsame; [|exact I]. repeat split.
   - eapply cnt_fsame; [|exact I]. repeat split.
+  - eapply cnt_fsame; [|exact I]. repeat split. intro u. cbn. unfold upd. destruct (Nat.eqb_spec u t) as [->|]; reflexivity.
 Qed.
 
 (* ---------- backend helpers that leave the counters alone *)
@@ -200,7 +201,8 @@ Lemma read_loop_failc fuel lim tn : forall x total notes,
   failc (fst (fst (fst (read_loop K fuel lim tn x total notes)))) = failc x.
 Proof.
   induction fuel as [|f IH]; intros x total notes; cbn [read_loop]; [reflexivity|].
-  destruct (prepare_read ideal (c_cap K) (q x)) as [q1 [off|]]; [|reflexivity].
+  destruct (prepare_read ideal (c_cap K) (q x)) as [q1 r0]. destruct (u_blocked K x); [reflexivity|].
+  destruct r0 as [off|]; [|reflexivity].
   destruct (qev x) as [|e rest]; [reflexivity|].
   destruct (negb (c_grace K =? 0) && (tn <? ets e)); [reflexivity|].
   assert (Hgo : forall c g,
@@ -335,7 +337,7 @@ Qed.
 Lemma fstep_noloss s o : NoLoss s -> NoLoss (fstep K s o).
 Proof.
   intros L H. specialize (L H).
-  destruct o as [t e|t|t|t|t|l v|k v|k m|d]; cbn [fstep]; auto.
+  destruct o as [t e|t|t|t|t|l v|k v|k m|d|t c]; cbn [fstep]; auto.
   - destruct (pend (th s t)); [exact L|]. destruct (tvalid (th s t) && passes_logger s e); exact L.
   - destruct (memb t (registered s) || negb (tvalid (th s t))); exact L.
   - destruct (pend (th s t)) as [e0|]; [|exact L]. destruct (negb (memb t (registered s))); [exact L|].
